@@ -733,3 +733,22 @@ func verifLemma_C12_plain_edits_survive_a_searchable_tag(v string, x string) {
 	verifrt.Assert(!f.Get("b").IsValid(), "earlier-plain-remove-survives")
 	verifrt.Assert(f.Get("a").Value.String() == "3", "base-tag-untouched")
 }
+
+// ---- C26: a change that cannot be applied is reported (bounded shape) -------------------------
+// AddTags and RemoveTags naming a feature that does not exist, applied to each kind of
+// mutable world through the real Apply: both report an error.
+func verifHelper_C26_absent_feature(w MutableWorld) {
+	absent := FromOSMRelationID(9).FeatureID()
+	_, err := AddTags{{ID: absent, Tag: b6.Tag{Key: "k", Value: b6.NewStringExpression("v")}}}.Apply(w)
+	verifrt.Assert(err != nil, "setting-a-tag-on-an-absent-feature-is-reported")
+	_, err = RemoveTags{{ID: absent, Key: "k"}}.Apply(w)
+	verifrt.Assert(err != nil, "removing-a-tag-from-an-absent-feature-is-reported")
+}
+
+func verifLemma_C26_basic_world_absent_feature() {
+	verifHelper_C26_absent_feature(NewBasicMutableWorld())
+}
+
+func verifLemma_C26_overlay_world_absent_feature() {
+	verifHelper_C26_absent_feature(NewMutableOverlayWorld(vListWorld{}))
+}
